@@ -447,7 +447,20 @@ func Main(t *testing.T, cfg Config) {
 		}
 		res.SimTimeS += r.SimTime.Seconds()
 		if selflog != nil {
-			fmt.Fprintf(selflog, "%v %d %d %016x %d\n", enum, idx, r.Seed, r.LogHash(), len(r.Tape.Rec))
+			if r.IsFreeRunning() {
+				// third-party goroutines ran freely: neither the event log nor the number of
+				// scheduling draws is a function of the seed alone (see Run.FreeRunning)
+				fmt.Fprintf(selflog, "%v %d %d %016x free-running\n", enum, idx, r.Seed, r.LogHash())
+			} else {
+				fmt.Fprintf(selflog, "%v %d %d %016x %d\n", enum, idx, r.Seed, r.LogHash(), len(r.Tape.Rec))
+			}
+			if di := os.Getenv("VERIF_DUMP_INDEX"); di != "" && !enum && (di == strconv.Itoa(idx) || di == "all") {
+				// debugging aid for a determinism failure: the full event log of one run / all runs
+				if f, err := os.OpenFile(os.Getenv("VERIF_SELFTEST_LOG")+".dump", os.O_CREATE|os.O_APPEND|os.O_WRONLY, 0o644); err == nil {
+					fmt.Fprintf(f, "#### run %d\n%s\n", idx, strings.Join(r.Log(), "\n"))
+					f.Close()
+				}
+			}
 		}
 		if r.nontriv {
 			res.Nontrivial++
